@@ -1,16 +1,16 @@
 #!/bin/bash
 # Confirms a seeded change produced by a sub-agent: usage confirm_seed.sh <ID>
 #  worktree /tmp/seed/<ID> (change applied), outputs in /tmp/seed/out/<ID>/{patch.diff,demo.c}
-ID=$1; W=/tmp/seed/$ID; O=/tmp/seed/out/$ID
+ID=$1; R=${SEEDROOT:-/tmp/seed}; W=$R/$ID; O=$R/out/$ID
 set -o pipefail
 cd $W || exit 2
 build() { cmake -G Ninja -B _build -DBUILD_TESTS=ON -DCMAKE_BUILD_TYPE=RelWithDebInfo >/dev/null 2>&1 && cmake --build _build >/dev/null 2>&1; }
-demo() { cc -g -O1 -I $W/Lib/core/public -I $W/Lib/structs/public -I $W/Lib/mem/public -I $W/Lib/thpool/public $O/demo.c -L $W/_build -lmodule_core -lmodule_structs -lmodule_mem -lmodule_thpool -lpthread -Wl,-rpath,$W/_build -o /tmp/seed/demo_$ID 2>/tmp/seed/demo_$ID.err || { echo "demo build failed"; cat /tmp/seed/demo_$ID.err | head; return 99; }; timeout 60 /tmp/seed/demo_$ID >/tmp/seed/demo_$ID.out 2>&1; }
+demo() { cc -g -O1 -I $W/Lib/core/public -I $W/Lib/structs/public -I $W/Lib/mem/public -I $W/Lib/thpool/public $O/demo.c -L $W/_build -lmodule_core -lmodule_structs -lmodule_mem -lmodule_thpool -lpthread -Wl,-rpath,$W/_build -o $R/demo_$ID 2>$R/demo_$ID.err || { echo "demo build failed"; cat $R/demo_$ID.err | head; return 99; }; timeout 60 $R/demo_$ID >$R/demo_$ID.out 2>&1; }
 # 1. with the change
 git stash list | grep -q . && { echo "stash not empty"; exit 2; }
 git diff --quiet && { echo "no change applied in $W"; exit 2; }
 build || { echo "BUILD FAILED with change"; exit 1; }
-ctest --test-dir _build --timeout 900 > /tmp/seed/ctest_$ID.out 2>&1; t=$?
+ctest --test-dir _build --timeout 900 > $R/ctest_$ID.out 2>&1; t=$?
 demo; d1=$?
 # 2. without the change
 git stash -q; build; demo; d0=$?; git stash pop -q; build
